@@ -53,7 +53,7 @@ THEOREM_CLASSES = {
 UNPROVED = [
     "wrongly typed arguments (argument convertibility): rule table rows only (tests)",
     "assignment to a constant through a function DEFINITION: `function v() ... end` over a <const>/<comptime> function-pointer VARIABLE is in the model (FuncAssign, covered by C05_names_sound / C05_analyzer_sound_partial); over a FIELD of a <const> record (`function r.cb() ... end`) it is a rule table row only (the mini-AST has no records)",
-    "function definition over a DECLARED function (`local function f() end function f() end`, also after <forwarddecl>): in the model (FuncAssign over a function symbol is accepted, as the funcdeclared/forwarddecl exemption of 1fc2b5c does) only inside the function that declares f. The compiler then `promotes` f to a local variable; that state change is NOT modelled and DFun carries no owner, so rule_names accepts a redefinition reached from a nested function and knows nothing of nested references before/after a redefinition: the generator keeps out of that region, it is judged by four RAW_TABLE rows only (two of them open defects, known_findings + proposed_repairs/06). Redefinition with a different signature is not modelled (zero-parameter functions only)",
+    "function definition over a DECLARED function (`local function f() end function f() end`, also after <forwarddecl>): in the model (FuncAssign over a function symbol is accepted, as the funcdeclared/forwarddecl exemption of 1fc2b5c does) only inside the function that declares f. The compiler then `promotes` f to a local variable; that state change is NOT modelled and DFun carries no owner, so rule_names accepts a redefinition reached from a nested function and knows nothing of nested references before/after a redefinition: the generator keeps out of that region, it is judged by four must-reject RAW_TABLE rows only (two of them were defects until 58121c2 = proposed_repairs/06, which checks symbol.usedby against the owning function at the promotion). Redefinition with a different signature is not modelled (zero-parameter functions only)",
     "scraped repair flags: the six pins (gen_*_checked / _fixed / _present) enter the soundness proofs by rewriting; C05_scraped_checks_needed shows for each pinned DECISION FUNCTION (break_ok_pol, recorded_case_pol via fall_errs, forced_errs_pol, agoto_pol, conv_errs_pol, funcdef_errs_pol) a concrete input let through with the check off and refused with it on; it is a decision-level tripwire, NOT a whole-program refutation of soundness under the other policy",
     "arithmetic on pointers or incompatible types: rule table rows only (tests); the mini-AST has no typed expressions",
     "constants that do not fit: integer -> integer constants over the scraped IntegralType table only; float and enum constants are not covered",
@@ -176,6 +176,7 @@ RAW_TABLE = [
     ("funcdef-over-const-field", "local function a(): integer return 1 end\nlocal R = @record{cb: function(): integer}\nlocal r: R <const> = {cb = a}\nfunction r.cb(): integer return 2 end\nprint(r.cb())\n", (4,)),
     # a redefined local function is a local variable of its function (analyzer.lua "promote to variable"): no other
     # function may reach it.  The mini-AST keeps out of this region (DFun has no owner, promotion is not modelled)
+    # (the first two rows were accepted until 58121c2)
     ("redefine-function-from-nested-function", "local function host()\n  local function f() end\n  local function g()\n    function f() end\n  end\n  g() f()\nend\nhost()\n", (4,)),
     ("nested-use-before-function-redefinition", "local function host()\n  local function f() end\n  local function g()\n    f()\n  end\n  function f() end\n  g() f()\nend\nhost()\n", (4, 6)),
     ("nested-use-after-function-redefinition", "local function host()\n  local function f() end\n  function f() end\n  local function g()\n    f()\n  end\n  g()\nend\nhost()\n", (5,)),
